@@ -8,6 +8,7 @@ pub mod c04;
 pub mod c05;
 pub mod c06;
 pub mod c09;
+pub mod c19;
 
 pub fn lookup(id: &str) -> Option<&'static dyn Property> {
     let p: &'static dyn Property = match id {
@@ -18,6 +19,7 @@ pub fn lookup(id: &str) -> Option<&'static dyn Property> {
         "C05" => &c05::C05,
         "C06" => &c06::C06,
         "C09" => &c09::C09,
+        "C19" => &c19::C19,
         _ => return None,
     };
     Some(p)
